@@ -592,7 +592,7 @@ def run(chk: Check) -> None:
         t = rec[idx]
         failing = t["events"][pos - 1] if 0 < pos <= len(t["events"]) else None
         chk.violation(
-            {"kind": "trace", "spec": "Datagram", "target": t["meta"].split()[0], "event": (failing or {}).get("ev", "?"), "what": "empty_datagram" if "EMPTY datagram" in t["meta"] or (failing or {}).get("kind") == "empty" else "other"},
+            {"kind": "trace", "spec": "Datagram", "target": t["meta"].split()[0].split("(")[0], "event": (failing or {}).get("ev", "?"), "what": "empty_datagram" if "EMPTY datagram" in t["meta"] or (failing or {}).get("kind") == "empty" else "other"},
             f"datagram: not a behaviour of Datagram (event #{pos}: {failing}) -- {t['meta']}",
             {"kind": "datagram_trace", "meta": t["meta"], "events": t["events"]},
         )
